@@ -135,6 +135,25 @@ def obligations_for(prop, ur):
             st = 'failed' if m['id'] in failed_ids else 'discharged'
             obs.append({'id': m['id'], 'kind': 'postcondition', 'fn': m['fn'], 'status': st, 'text': m['text'],
                         'diag': failed_ids.get(m['id'])})
+    # a trait clause failing inside an implementation: counts for the properties the clause is stated for and for
+    # those of the implementing function, whether or not that function is registered (a change may ADD a method
+    # that overrides a verified default)
+    fprops = dict((f['id'], f['props']) for f in g.functions)
+    registered_inheriting = set(f['id'] for f in g.functions if f.get('inherits') and prop in f['props'])
+    for c in cl['failed_clauses']:
+        if c.get('inherited') and c.get('fn') not in registered_inheriting:
+            ps = set(c.get('iprops') or []) | set(fprops.get(c.get('fn'), []))
+            if prop in ps or (not ps and prop == 'C13'):
+                obs.append({'id': c['id'], 'kind': 'postcondition(inherited)', 'fn': c.get('fn'), 'status': 'failed',
+                            'text': 'trait contract %s in an implementation' % (c.get('trait_clause') or ''), 'diag': c})
+    # a verifier error in a function no property claims (e.g. a function the change added): never silently dropped
+    lemma_names = set(l.name for l in g.unit.lemmas)
+    for key in ('failed_safety', 'internal'):
+        for c in cl[key]:
+            fn = c.get('fn')
+            if fn and fn not in lemma_names and not fprops.get(fn):
+                obs.append({'id': '%s#unattributed' % fn, 'kind': 'proof-internal', 'fn': fn, 'status': 'undecided',
+                            'text': 'verifier error in a function that no property claims: ' + (c.get('message') or '')[:120], 'diag': c})
     for f in g.functions:
         # C13 (no operation panics): the body-safety obligation of EVERY function under contract
         if (prop in f['props'] or prop == 'C13') and f['has_body']:
